@@ -298,6 +298,16 @@ func zzSame(a, b interface{}) bool {
 	if reflect.TypeOf(a) != reflect.TypeOf(b) {
 		return false
 	}
+	va, vb := reflect.ValueOf(a), reflect.ValueOf(b)
+	switch va.Kind() {
+	case reflect.Func:
+		return va.Pointer() == vb.Pointer()
+	case reflect.Map, reflect.Slice:
+		if va.Pointer() == vb.Pointer() && va.Len() == vb.Len() {
+			return true
+		}
+		return reflect.DeepEqual(a, b)
+	}
 	if reflect.TypeOf(a).Comparable() {
 		return a == b
 	}
@@ -315,6 +325,31 @@ func zzDocUnchanged() bool {
 
 // zzRender prints a value in the canonical output format of the engine.
 func zzRender(v interface{}) string {
+	if v != nil && len(zzOpaque) > 0 {
+		for i, o := range zzOpaque {
+			if reflect.TypeOf(o) != reflect.TypeOf(v) {
+				continue
+			}
+			switch reflect.TypeOf(o).Kind() {
+			case reflect.Map, reflect.Slice:
+				if reflect.ValueOf(o).Pointer() != reflect.ValueOf(v).Pointer() {
+					continue
+				}
+				if reflect.ValueOf(o).IsNil() {
+					continue // nil JSON containers print like empty ones
+				}
+			case reflect.Func:
+				if reflect.ValueOf(o).Pointer() != reflect.ValueOf(v).Pointer() {
+					continue
+				}
+			default:
+				if reflect.TypeOf(o).Comparable() && o != v {
+					continue
+				}
+			}
+			return fmt.Sprintf("o:%d", i)
+		}
+	}
 	switch x := v.(type) {
 	case nil:
 		return "null"
